@@ -3,8 +3,8 @@ import webpgen as W
 
 ID = "C06"
 AREA = "webp"
-COQ_TARGETS = ["theories/Props/C06.vo"]
-COQCHK = ["MS.Props.C06"]
+COQ_TARGETS = ["theories/Props/C06.vo", "theories/Props/C06r.vo"]
+COQCHK = ["MS.Props.C06", "MS.Props.C06r"]
 REQUIRES = ["From Coq Require Import List NArith Bool.", "From Coq.Strings Require Import Byte.",
             "From MS Require Import Base.Bytes Base.Outcome Base.Prog Webp.Container Webp.Grammar Webp.Vp8l Props.C06.",
             "Import ListNotations.", "Open Scope N_scope."]
@@ -22,6 +22,14 @@ THEOREMS = [
                             "(f <= f')%nat -> webp_sanitize lossless allow lenient ms inp f <> OutOfFuel -> "
                             "webp_sanitize lossless allow lenient ms inp f' = webp_sanitize lossless allow lenient ms inp f"),
 ]
+THEOREMS = THEOREMS + [
+    ("C06_readers_agree", "forall (lossless : N -> N -> bytes -> res unit) (allow l1 l2 : bool) (ms1 ms2 : N) (inp : input) (fuel : nat), "
+                          "ilen inp <= ms1 -> ilen inp <= ms2 -> (N.to_nat (ilen inp / 8) < fuel)%nat -> "
+                          "is_ok (webp_sanitize lossless allow l1 ms1 inp fuel) = is_ok (webp_sanitize lossless allow l2 ms2 inp fuel)"),
+]
+REQUIRES_FOR = {"C06_readers_agree": ["From Coq Require Import List NArith Bool.", "From Coq.Strings Require Import Byte.",
+                                      "From MS Require Import Base.Bytes Base.Outcome Base.Prog Webp.Container Webp.Grammar Props.C06r.",
+                                      "Open Scope N_scope."]}
 XCHECK_N = 24
 EXHAUSTIVE = {"quick": False, "thorough": False}
 NOTES = []
